@@ -17,17 +17,36 @@ variable {B DM : Type}
 
 /-! ### fetch_pack_roundtrip -/
 
-/-- For every input that `encrypt` accepts — whatever the number of data-map levels — fetching through the returned
-data-map chunk against a record source that holds exactly the produced chunks returns the input, for every completion
-order of the chunk fetches of every round (`codes`: every code is a permutation and every permutation has a code,
-`completion_codes_are_the_permutations`), given enough loop iterations. The only thing asked of the hash is that no two
-of the produced chunks collide (a colliding pair would share one address, and the store can hold only one of them). -/
-theorem fetch_pack_roundtrip (S : SE B DM) (L : Laws S) (max fuel : Nat) (data : B)
-    (dataMapChunk : Chunk B) (chunks : List (Chunk B))
+/-- Every produced chunk, the data-map chunk included, is addressed by the hash of its content (stated again below as
+`chunks_content_addressed`). -/
+theorem chunks_content_addressed_aux (S : SE B DM) (max fuel : Nat) (data : B) (dataMapChunk : Chunk B)
+    (chunks : List (Chunk B)) (h : encrypt S max fuel data = .ok (dataMapChunk, chunks)) :
+    dataMapChunk.address = S.hash dataMapChunk.value ∧ ∀ c ∈ chunks, c.address = S.hash c.value := by
+  unfold encrypt at h
+  split at h
+  · cases h
+  · rename_i dm cs henc
+    split at h
+    · cases h
+    · rename_i dmc additional hpack
+      simp only [Except.ok.injEq, Prod.mk.injEq] at h
+      obtain ⟨hwfadd, hdm⟩ := pack_wf S max fuel _ [] _ _ hpack (by intro c hc; cases hc)
+      rw [← h.1, ← h.2]
+      refine ⟨by rw [hdm]; rfl, ?_⟩
+      intro c hc
+      cases List.mem_append.1 hc with
+      | inl h1 => obtain ⟨v, _, hv⟩ := List.mem_map.1 h1; rw [← hv]; rfl
+      | inr h2 => exact hwfadd c h2
+
+/-- The round trip against ANY honest record source that holds at least the produced chunks (`store`: every chunk
+addressed by the hash of its value, no two values in it colliding): what else the source holds does not matter. -/
+theorem fetch_pack_roundtrip_store (S : SE B DM) (L : Laws S) (max fuel : Nat) (data : B)
+    (dataMapChunk : Chunk B) (chunks store : List (Chunk B))
     (h : encrypt S max fuel data = .ok (dataMapChunk, chunks))
-    (hcf : NoCollision S (chunks.map (·.value))) :
+    (hsub : ∀ c ∈ chunks, c ∈ store) (hwf : WF S store)
+    (hcf : NoCollision S (store.map (·.value))) :
     ∀ fuel', fuel + 1 ≤ fuel' → ∀ codes : List (List Nat),
-      fetchFromDataMapChunk S (storeGet chunks) fuel' codes dataMapChunk.value = .ok data := by
+      fetchFromDataMapChunk S (storeGet store) fuel' codes dataMapChunk.value = .ok data := by
   unfold encrypt at h
   split at h
   · cases h
@@ -39,29 +58,35 @@ theorem fetch_pack_roundtrip (S : SE B DM) (L : Laws S) (max fuel : Nat) (data :
       obtain ⟨h1, h2⟩ := h
       subst h1
       unfold packDataMap at hpack
-      -- the store: content chunks followed by the additional ones, all made by `Chunk::new`
-      have hwfadd := (pack_wf S max fuel _ [] _ _ hpack (by intro c hc; cases hc)).1
-      have hwf : WF S chunks := by
-        rw [← h2]
-        intro c hc
-        cases List.mem_append.1 hc with
-        | inl h => obtain ⟨v, _, hv⟩ := List.mem_map.1 h; rw [← hv]; rfl
-        | inr h => exact hwfadd c h
-      have hcs : ∀ c ∈ cs, Chunk.new S c ∈ chunks := by
-        intro c hc; rw [← h2]; exact List.mem_append_left _ (List.mem_map_of_mem hc)
+      have hcs : ∀ c ∈ cs, Chunk.new S c ∈ store := by
+        intro c hc; apply hsub; rw [← h2]; exact List.mem_append_left _ (List.mem_map_of_mem hc)
       -- the first level is good at depth 1
-      have hgood : Good S chunks data (false, dm) 1 := by
+      have hgood : Good S store data (false, dm) 1 := by
         intro f hf codes
         obtain ⟨f', rfl⟩ : ∃ f', f = f' + 1 := ⟨f - 1, by omega⟩
         simp only [fetchLoop]
-        rw [fetch_round S L chunks hwf hcf data dm cs henc hcs]
+        rw [fetch_round S L store hwf hcf data dm cs henc hcs]
         simp
-      obtain ⟨lvl', depth', hun, hg, hle⟩ := pack_good S L max chunks hwf hcf data fuel _ [] _ _ hpack
-        (by intro c hc; rw [← h2]; exact List.mem_append_right _ hc) (false, dm) 1 (L.unwrap_wrap false dm) hgood
+      obtain ⟨lvl', depth', hun, hg, hle⟩ := pack_good S L max store hwf hcf data fuel _ [] _ _ hpack
+        (by intro c hc; apply hsub; rw [← h2]; exact List.mem_append_right _ hc) (false, dm) 1 (L.unwrap_wrap false dm) hgood
       intro fuel' hfuel codes
       unfold fetchFromDataMapChunk
       rw [hun]
       exact hg fuel' (by omega) codes
+
+/-- For every input that `encrypt` accepts — whatever the number of data-map levels — fetching through the returned
+data-map chunk against a record source that holds exactly the produced chunks returns the input, for every completion
+order of the chunk fetches of every round (`codes`: every code is a permutation and every permutation has a code,
+`completion_codes_are_the_permutations`), given enough loop iterations. The only thing asked of the hash is that no two
+of the produced chunks collide (a colliding pair would share one address, and the store can hold only one of them). -/
+theorem fetch_pack_roundtrip (S : SE B DM) (L : Laws S) (max fuel : Nat) (data : B)
+    (dataMapChunk : Chunk B) (chunks : List (Chunk B))
+    (h : encrypt S max fuel data = .ok (dataMapChunk, chunks))
+    (hcf : NoCollision S (chunks.map (·.value))) :
+    ∀ fuel', fuel + 1 ≤ fuel' → ∀ codes : List (List Nat),
+      fetchFromDataMapChunk S (storeGet chunks) fuel' codes dataMapChunk.value = .ok data := by
+  have hwf : WF S chunks := fun c hc => (chunks_content_addressed_aux S max fuel data dataMapChunk chunks h).2 c hc
+  exact fetch_pack_roundtrip_store S L max fuel data dataMapChunk chunks chunks h (fun c hc => hc) hwf hcf
 
 /-- The completion orders the round-trip theorem quantifies over are exactly the permutations of the download tasks:
 every code denotes a permutation of the task list and every permutation of it has a code. -/
@@ -181,22 +206,8 @@ theorem chunks_bounded_partial (S : SE B DM) (max fuel over packet : Nat) (data 
 /-- Every produced chunk, the data-map chunk included, is addressed by the hash of its content. -/
 theorem chunks_content_addressed (S : SE B DM) (max fuel : Nat) (data : B) (dataMapChunk : Chunk B)
     (chunks : List (Chunk B)) (h : encrypt S max fuel data = .ok (dataMapChunk, chunks)) :
-    dataMapChunk.address = S.hash dataMapChunk.value ∧ ∀ c ∈ chunks, c.address = S.hash c.value := by
-  unfold encrypt at h
-  split at h
-  · cases h
-  · rename_i dm cs henc
-    split at h
-    · cases h
-    · rename_i dmc additional hpack
-      simp only [Except.ok.injEq, Prod.mk.injEq] at h
-      obtain ⟨hwfadd, hdm⟩ := pack_wf S max fuel _ [] _ _ hpack (by intro c hc; cases hc)
-      rw [← h.1, ← h.2]
-      refine ⟨by rw [hdm]; rfl, ?_⟩
-      intro c hc
-      cases List.mem_append.1 hc with
-      | inl h1 => obtain ⟨v, _, hv⟩ := List.mem_map.1 h1; rw [← hv]; rfl
-      | inr h2 => exact hwfadd c h2
+    dataMapChunk.address = S.hash dataMapChunk.value ∧ ∀ c ∈ chunks, c.address = S.hash c.value :=
+  chunks_content_addressed_aux S max fuel data dataMapChunk chunks h
 
 /-! ### encrypt_deterministic -/
 
@@ -259,6 +270,84 @@ theorem entry_roundtrip (S : SE B DM) (L : Laws S) (max fuel : Nat) (pre : B →
   unfold putEntry at h
   rw [hpass] at h
   exact fetch_pack_roundtrip S L max fuel data dataMapChunk chunks h hcf
+
+/-! ### What is uploaded: fetch after put round-trips against what the client itself PUT -/
+
+/-- The private put uploads every produced chunk, the public put every produced chunk and the data-map chunk (the
+argument of `upload_chunks_with_retries`, regenerated from the source); with a receipt that covers them, exactly those
+are PUT, each under its own address. -/
+theorem uploaded_is_everything (dataMapChunk : Chunk B) (chunks : List (Chunk B)) (paid : Nat → Bool)
+    (hpaid : ∀ c ∈ chunks ++ [dataMapChunk], paid c.address = true) :
+    putRecords paid (uploaded .dataPut dataMapChunk chunks) = chunks ∧
+    putRecords paid (uploaded .dataPutPublic dataMapChunk chunks) = chunks ++ [dataMapChunk] := by
+  have h1 : chunks.filter (fun c => paid c.address) = chunks :=
+    List.filter_eq_self.2 (fun c hc => hpaid c (List.mem_append_left _ hc))
+  have h2 : (chunks ++ [dataMapChunk]).filter (fun c => paid c.address) = chunks ++ [dataMapChunk] :=
+    List.filter_eq_self.2 hpaid
+  constructor
+  · simp only [putRecords, uploaded, Gen.SelfEnc.uploadSkipsOnlyUnpaid, Gen.SelfEnc.putRecordIsChunkUnderOwnAddress,
+      Gen.SelfEnc.dataPutUploadsChunks, Bool.and_self, ↓reduceIte]
+    exact h1
+  · simp only [putRecords, uploaded, Gen.SelfEnc.uploadSkipsOnlyUnpaid, Gen.SelfEnc.putRecordIsChunkUnderOwnAddress,
+      Gen.SelfEnc.dataPutPublicUploadsChunks, Gen.SelfEnc.dataPutPublicUploadsDataMap, Bool.and_self, ↓reduceIte]
+    exact h2
+
+/-- Private put, then `data_get` of the returned data-map chunk against the records the put itself uploaded: the
+caller's bytes, for every completion order. (Dropping any produced chunk from the upload — e.g. those of the additional
+data-map levels — breaks this proof: `uploaded` is regenerated from the source.) -/
+theorem put_then_get_roundtrips (S : SE B DM) (L : Laws S) (max fuel : Nat) (pre : B → B) (data : B)
+    (dataMapChunk : Chunk B) (chunks : List (Chunk B)) (paid : Nat → Bool)
+    (h : putEntry S max fuel pre .dataPut data = .ok (dataMapChunk, chunks))
+    (hpaid : ∀ c ∈ chunks ++ [dataMapChunk], paid c.address = true)
+    (hcf : NoCollision S (chunks.map (·.value))) :
+    ∀ fuel', fuel + 1 ≤ fuel' → ∀ codes : List (List Nat),
+      fetchFromDataMapChunk S (storeGet (putRecords paid (uploaded .dataPut dataMapChunk chunks))) fuel' codes
+        dataMapChunk.value = .ok data := by
+  rw [(uploaded_is_everything dataMapChunk chunks paid hpaid).1]
+  exact entry_roundtrip S L max fuel pre data .dataPut dataMapChunk chunks h hcf
+
+/-- Public put, then `data_get_public` of the returned ADDRESS against the records the put itself uploaded: the data-map
+chunk is found under that address (it was uploaded too) and fetching through it returns the caller's bytes. The
+collision hypothesis now includes the data-map chunk (it shares the store with the content chunks). -/
+theorem put_public_then_get_roundtrips (S : SE B DM) (L : Laws S) (max fuel : Nat) (pre : B → B) (data : B)
+    (dataMapChunk : Chunk B) (chunks : List (Chunk B)) (paid : Nat → Bool)
+    (h : putEntry S max fuel pre .dataPutPublic data = .ok (dataMapChunk, chunks))
+    (hpaid : ∀ c ∈ chunks ++ [dataMapChunk], paid c.address = true)
+    (hcf : NoCollision S ((chunks ++ [dataMapChunk]).map (·.value))) :
+    ∃ m, storeGet (putRecords paid (uploaded .dataPutPublic dataMapChunk chunks)) dataMapChunk.address = .ok m ∧
+      m.value = dataMapChunk.value ∧
+      ∀ fuel', fuel + 1 ≤ fuel' → ∀ codes : List (List Nat),
+        fetchFromDataMapChunk S (storeGet (putRecords paid (uploaded .dataPutPublic dataMapChunk chunks))) fuel' codes
+          m.value = .ok data := by
+  rw [(uploaded_is_everything dataMapChunk chunks paid hpaid).2]
+  have hpass : Entry.dataPutPublic.passesBytesUnchanged = true := rfl
+  unfold putEntry at h
+  rw [hpass] at h
+  simp only [↓reduceIte] at h
+  obtain ⟨hdm, hcs⟩ := chunks_content_addressed_aux S max fuel data dataMapChunk chunks h
+  have hwf : WF S (chunks ++ [dataMapChunk]) := by
+    intro c hc
+    cases List.mem_append.1 hc with
+    | inl h1 => exact hcs c h1
+    | inr h2 => simp only [List.mem_singleton] at h2; subst h2; exact hdm
+  have hin : Chunk.new S dataMapChunk.value ∈ chunks ++ [dataMapChunk] := by
+    have : Chunk.new S dataMapChunk.value = dataMapChunk := by
+      cases dataMapChunk with
+      | mk a v =>
+        have : a = S.hash v := hdm
+        subst this; rfl
+    rw [this]; simp
+  obtain ⟨m, hget, hval⟩ := storeGet_hit S _ hwf hcf dataMapChunk.value hin
+  refine ⟨m, by rw [hdm]; exact hget, hval, ?_⟩
+  rw [hval]
+  exact fetch_pack_roundtrip_store S L max fuel data dataMapChunk chunks _ h
+    (fun c hc => List.mem_append_left _ hc) hwf hcf
+
+/-- OBSERVATION (not a clause of C14): a chunk the receipt has no entry for is silently skipped ("already paid") and the
+put still succeeds — with an empty receipt nothing is stored at all. -/
+theorem unpaid_chunks_are_not_uploaded (dataMapChunk : Chunk B) (chunks : List (Chunk B)) (e : Entry) :
+    putRecords (fun _ => false) (uploaded e dataMapChunk chunks) = [] := by
+  simp [putRecords]
 
 /-- …and only those are rejected at the first level. -/
 theorem large_enough_encrypted (S : SE B DM) (L : Laws S) (data : B) (hlarge : 3 ≤ S.len data) :
@@ -437,6 +526,11 @@ end SafeNet.Props.C14
 #print axioms SafeNet.Props.C14.too_small_rejected
 #print axioms SafeNet.Props.C14.too_small_rejected_on_every_entry_point
 #print axioms SafeNet.Props.C14.entry_roundtrip
+#print axioms SafeNet.Props.C14.fetch_pack_roundtrip_store
+#print axioms SafeNet.Props.C14.uploaded_is_everything
+#print axioms SafeNet.Props.C14.put_then_get_roundtrips
+#print axioms SafeNet.Props.C14.put_public_then_get_roundtrips
+#print axioms SafeNet.Props.C14.unpaid_chunks_are_not_uploaded
 #print axioms SafeNet.Props.C14.large_enough_encrypted
 #print axioms SafeNet.Props.C14.toy_laws
 #print axioms SafeNet.Props.C14.toyMod_laws
